@@ -160,6 +160,29 @@ def run(rep, model, tier, seed):
                         key = None  # routing to oneself is outside the property (loop-back is C05/C14)
                     rep.disagree("_logi_2_phys", {"node": a, "to": d, "send_type": st, "octal": [oct(a), oct(d)]},
                                  cell, impl, key)
+    # the multicast_level override (stored in _net_lvl) must not influence unicast routing
+    n_lvl = 0
+    sub = nodes if tier != "quick" else nodes[::5]
+    for st in (0, 1):
+        rows = model.batch(["l2prow %d %d" % (a, st) for a in sub])
+        for a, row in zip(sub, rows):
+            cells = row.split(";")
+            for L in range(5):
+                if L == consts[a][2]:
+                    continue
+                (net._addr, net._mask, net._mask_inv, net._net_lvl, net._parent, net._parent_pipe) = (a,) + consts[a]
+                net._net_lvl = L          # what `multicast_level = L` stores
+                for d, cell in zip(nodes, cells):
+                    t = net._logi_2_phys(d, st)
+                    impl = "%d %d %s" % (t[0], t[1], "T" if t[2] else "F")
+                    n_lvl += 1
+                    if impl != cell and a != d:
+                        rep.disagree("_logi_2_phys with multicast_level override",
+                                     {"node": a, "to": d, "send_type": st, "multicast_level": L, "octal": [oct(a), oct(d)]},
+                                     cell, impl, "C04/next-hop-off-tree-path" if t[0] != tree_next(a, d) else None)
+    rep.count("logi_2_phys with multicast_level override", n_lvl)
+    n_pairs += n_lvl
+    rep.exhaustive.append("_logi_2_phys for %d nodes x 781 destinations x every multicast_level override != own level" % len(sub))
     rep.evaluations += n_pairs
     rep.count("logi_2_phys", n_pairs)
     for a in nodes:
